@@ -380,12 +380,11 @@ Proof. intro H. apply guard_sound, reachable_EInv, H. Qed.
 
 (* a write of part of the buffer to its own path leaves the flag on, whatever is undone or redone
    afterwards, until the next whole write or reload *)
-Theorem partial_write_dirty c ops b en walk : let e := run_dops (ebuf_open c) ops in
+Theorem partial_write_dirty_inv e b en walk : EInv e ->
   (Nat.eqb b 0 && Nat.eqb en (length (ln (lb e))) = false) -> forallb is_walk walk = true ->
   dirty_flag (run_dops (run_dop e (DSaveOwn b en)) walk) = true.
 Proof.
-  cbv zeta. intros NW Hw. set (e := run_dops (ebuf_open c) ops) in *.
-  destruct (reachable_inv c ops) as (g0 & D). fold e in D.
+  intros (g0 & D) NW Hw.
   assert (E1 : run_dop e (DSaveOwn b en) = {| lb := lbuf_unsaved (lb e); disk := slice (ln (lb e)) b (en - b) |}).
   { cbn [run_dop]. unfold write_own. rewrite NW. reflexivity. }
   rewrite E1. set (e1 := {| lb := lbuf_unsaved (lb e); disk := slice (ln (lb e)) b (en - b) |}).
@@ -399,6 +398,11 @@ Proof.
   destruct (hist_u (lb (run_dops e1 walk))) as [|u]; cbn [seqpos]; [lia|].
   destruct (d_rng _ _ _ D u ltac:(lia)). lia.
 Qed.
+
+Theorem partial_write_dirty c ops b en walk : let e := run_dops (ebuf_open c) ops in
+  (Nat.eqb b 0 && Nat.eqb en (length (ln (lb e))) = false) -> forallb is_walk walk = true ->
+  dirty_flag (run_dops (run_dop e (DSaveOwn b en)) walk) = true.
+Proof. cbv zeta. apply partial_write_dirty_inv, reachable_inv. Qed.
 
 (* ------------------------------------------------------------------------------------------ *)
 (* the table bufs[NBUFS] with empty slots: ec_quit visits every slot of the array (round e: a scan that stops
@@ -517,4 +521,115 @@ Proof.
   intro H. cbn [ec_quit_tab ec_quit]. unfold full_table at 1. rewrite (quit_tab_prefix _ l []).
   unfold full_table. destruct (quit_scan_spec l []) as (P & _). cbn [rev app] in P.
   apply Permutation_length in P. rewrite !map_length in P. rewrite P. reflexivity.
+Qed.
+
+(* ------------------------------------------------------------------------------------------ *)
+(* rounds g/h.  (h) the buffer of an editor started WITHOUT a file name: lbuf_make; lbuf_saved(lb, 0) -- useq_last = 0, and 0 is
+   what lbuf_seq answers below the oldest log entry; (g) :e with an empty / self-referring argument *)
+Lemma new_inv : EInv ebuf_new.
+Proof.
+  exists []. unfold ebuf_new. cbn [lb disk]. constructor.
+  - unfold Inv. cbn. repeat split; auto.
+  - cbn. intros; lia.
+  - cbn. intros; lia.
+  - left. reflexivity.
+  - cbn. lia.
+  - cbn. lia.
+  - cbn. intros i Hi _ _. assert (i = 0)%nat by lia. subst. reflexivity.
+Qed.
+
+(* reachable from either start: a buffer read from a file (:e file, vi file) or the unnamed buffer of `vi` without arguments *)
+Definition reachable0 (b : ebuf) : Prop := reachable b \/ exists ops, b = run_dops ebuf_new ops.
+
+Lemma reachable0_EInv b : reachable0 b -> EInv b.
+Proof. intros [H|(ops & ->)]; [apply reachable_EInv, H | apply run_dops_inv, new_inv]. Qed.
+
+Lemma run_dops_app ops1 : forall e ops2, run_dops e (ops1 ++ ops2) = run_dops (run_dops e ops1) ops2.
+Proof. induction ops1 as [|o ops1 IH]; intros e ops2; [reflexivity|]. cbn [app run_dops]. apply IH. Qed.
+
+Lemma reachable0_step b ops : reachable0 b -> reachable0 (run_dops b ops).
+Proof.
+  intros [(c & o1 & ->)|(o1 & ->)]; [left; exists c, (o1 ++ ops) | right; exists (o1 ++ ops)]; symmetry; apply run_dops_app.
+Qed.
+
+Theorem noname_sound ops : let e := run_dops ebuf_new ops in dirty_flag e = false -> ln (lb e) = disk e.
+Proof.
+  cbv zeta. intro M. destruct (run_dops_inv ops _ new_inv) as (g0 & D). apply (clean_sound _ g0); assumption.
+Qed.
+
+Theorem noname_partial_write_dirty ops b en walk : let e := run_dops ebuf_new ops in
+  (Nat.eqb b 0 && Nat.eqb en (length (ln (lb e))) = false) -> forallb is_walk walk = true ->
+  dirty_flag (run_dops (run_dop e (DSaveOwn b en)) walk) = true.
+Proof. cbv zeta. apply partial_write_dirty_inv, run_dops_inv, new_inv. Qed.
+
+Theorem quit_sound_reachable0 bufs : Forall reachable0 bufs -> snd (ec_quit false bufs) = true ->
+  Forall (fun b => ln (lb b) = disk b) bufs.
+Proof. intros H. apply quit_sound. eapply Forall_impl; [|exact H]. apply reachable0_EInv. Qed.
+
+Theorem quit_tab_sound_reachable0 t : length t = NSLOTS -> Forall reachable0 (occupied t) -> snd (ec_quit_tab false t) = true ->
+  Forall (fun b => ln (lb b) = disk b) (occupied t).
+Proof. intros _ H. apply quit_tab_sound. eapply Forall_impl; [|exact H]. apply reachable0_EInv. Qed.
+
+Theorem guard_sound_reachable0 b rest : reachable0 b -> snd (guard_current false (b :: rest)) = false -> ln (lb b) = disk b.
+Proof. intro H. apply guard_sound, reachable0_EInv, H. Qed.
+
+(* :e without a file name (and :e +cmd), no `!`, on a buffer reported modified: refused; text, undo history, undo position, ghost
+   disk and the flag of every buffer are kept (only the command counter of the current one moves) *)
+Theorem edit_noarg_refused b rest file : dirty_flag b = true ->
+  ec_edit_noarg false file (b :: rest) = (fst (bufs_modified b) :: rest, true) /\
+  map content (fst (ec_edit_noarg false file (b :: rest))) = map content (b :: rest) /\
+  map dirty_flag (fst (ec_edit_noarg false file (b :: rest))) = map dirty_flag (b :: rest).
+Proof.
+  intro F. unfold ec_edit_noarg. cbn [guard_current]. unfold bufs_modified. cbn [fst snd]. change (snd (lbuf_modified (lb b))) with (dirty_flag b). rewrite F.
+  cbn [fst snd map]. repeat split.
+Qed.
+
+Lemma reload_state b file : let b' := run_dop b (DReload file) in
+  ln (lb b') = lines_of file /\ disk b' = lines_of file /\ dirty_flag b' = false.
+Proof.
+  cbv zeta. cbn [run_dop lb disk]. unfold dirty_flag. cbn [lb]. rewrite saved_flag. repeat split.
+  change (ln (lbuf_saved ?l false)) with (ln l). apply edit_whole_ln.
+Qed.
+
+(* ... and it goes through only on a buffer whose text equals the ghost disk: what the reload replaces is in the file.  Afterwards
+   the text is the file's, the ghost disk is the text, the flag is off, and the buffer is again a reachable one *)
+Theorem edit_noarg_sound b rest file : reachable0 b -> snd (ec_edit_noarg false file (b :: rest)) = false ->
+  ln (lb b) = disk b /\
+  exists b', fst (ec_edit_noarg false file (b :: rest)) = b' :: rest /\
+             ln (lb b') = lines_of file /\ disk b' = lines_of file /\ dirty_flag b' = false /\ reachable0 b'.
+Proof.
+  intros R. unfold ec_edit_noarg. cbn [guard_current]. unfold bufs_modified. cbn [fst snd]. change (snd (lbuf_modified (lb b))) with (dirty_flag b).
+  destruct (dirty_flag b) eqn:F; cbn [fst snd]; [discriminate|]. intros _.
+  split; [apply (guard_sound b rest (reachable0_EInv _ R)); cbn; exact F|].
+  eexists. split; [reflexivity|].
+  destruct (reload_state {| lb := fst (lbuf_modified (lb b)); disk := disk b |} file) as (A & B & C).
+  split; [exact A|]. split; [exact B|]. split; [exact C|].
+  exact (reachable0_step b [DBump; DReload file] R).
+Qed.
+
+(* :e! without a file name: the reload, whatever the flag says *)
+Theorem edit_noarg_force b rest file :
+  exists b', ec_edit_noarg true file (b :: rest) = (b' :: rest, false) /\
+             ln (lb b') = lines_of file /\ disk b' = lines_of file /\ dirty_flag b' = false /\ (reachable0 b -> reachable0 b').
+Proof.
+  unfold ec_edit_noarg. cbn [guard_current]. eexists. split; [reflexivity|].
+  destruct (reload_state b file) as (A & B & C). split; [exact A|]. split; [exact B|]. split; [exact C|].
+  intro R. exact (reachable0_step b [DReload file] R).
+Qed.
+
+(* :e % / :e <own path>: refused on a buffer reported modified; otherwise nothing but the command counter moves (no read) *)
+Theorem edit_own_spec force b rest :
+  (force = false -> dirty_flag b = true ->
+     ec_edit_own force (b :: rest) = (fst (bufs_modified b) :: rest, true)) /\
+  (snd (ec_edit_own force (b :: rest)) = false ->
+     map content (fst (ec_edit_own force (b :: rest))) = map content (b :: rest) /\
+     map dirty_flag (fst (ec_edit_own force (b :: rest))) = map dirty_flag (b :: rest) /\
+     (force = false -> reachable0 b -> ln (lb b) = disk b)).
+Proof.
+  unfold ec_edit_own. destruct force; cbn [guard_current].
+  - split; [discriminate|]. intros _. cbn [fst snd map]. repeat split. discriminate.
+  - unfold bufs_modified. cbn [fst snd]. change (snd (lbuf_modified (lb b))) with (dirty_flag b). destruct (dirty_flag b) eqn:F; cbn [fst snd].
+    + split; [reflexivity | discriminate].
+    + split; [discriminate|]. intros _. cbn [map]. repeat split.
+      intros _ R. apply (guard_sound b rest (reachable0_EInv _ R)). cbn. exact F.
 Qed.
